@@ -106,7 +106,31 @@ impl Prop for C06 {
                     reads_left -= 1;
                 }
             }
-            ops.push(AppOp::Write(gen::gen_out_frame(rng, mode, stats)));
+            let f = gen::gen_out_frame(rng, mode, stats);
+            if cancels && rng.chance(1, 4) {
+                // an abandoned write (select! / timeout around write): if nothing of the frame got
+                // out, nothing of it may turn up later
+                ops.push(AppOp::WriteCancel {
+                    frame: f,
+                    polls: rng.below(4) as u32,
+                });
+            } else if rng.chance(1, 25) {
+                // a packet the encoder refuses: the write fails and leaves nothing behind
+                match gen::gen_unencodable_frame(rng, mode) {
+                    Some(u) => ops.push(AppOp::Write(u)),
+                    None => ops.push(AppOp::Write(f)),
+                }
+            } else {
+                ops.push(AppOp::Write(f));
+            }
+        }
+        if imp == Imp::Blocking && !fault_free && rng.chance(1, 3) {
+            // EINTR: the blocking transport's "not ready, call again"
+            let k = rng.usize(1, 6);
+            for _ in 0..k {
+                let at = rng.usize(0, writes.len());
+                writes.insert(at, WriteEv::Err(crate::scenario::ErrKind::Interrupted));
+            }
         }
         ops.push(AppOp::Drain {
             max: (n_in + 3) as u32,
@@ -169,7 +193,9 @@ impl Prop for C06 {
     fn assumptions(&self) -> Vec<String> {
         vec![
             "expected bytes of write(p) = Codec::encode(p) (reference call)".into(),
-            "the transport never fails and never accepts 0 bytes (the property's quantifier excludes both)".into(),
+            "the transport never accepts 0 bytes and never fails, except that the blocking one may answer Interrupted (EINTR: 'not ready, call again'), after which the frame must still go out whole".into(),
+            "abandoned application writes (tokio): a write dropped before any byte of its frame was accepted must leave no trace; one dropped mid-frame has torn the wire by the application's own doing and ends the accountability of the outgoing side".into(),
+            "a packet the encoder refuses must make write fail with nothing written".into(),
             "in a third of the tokio runs the transport buffers what it accepts until it is flushed (as the shipped WebSocket adaptor does) and its flush may answer Pending: a write that returns Ok must have flushed; the blocking connection is only run over an unbuffered transport".into(),
         ]
     }
@@ -190,6 +216,10 @@ impl Prop for C06 {
             "read_cancelled",
             "flush_pending",
             "buffered_bytes_flushed",
+            "write_cancelled",
+            "write_cancelled_before_first_byte",
+            "unencodable_packet_written",
+            "write_err",
         ]
     }
 }
